@@ -1737,3 +1737,49 @@ Proof.
         -- congruence.
         -- subst e. congruence.
 Qed.
+
+(* --- the legality check of shuffle accepts EXACTLY the permutations --- *)
+Lemma zinsert_ins x l : zinsert x l = ins Z.leb (fun z : Z => z) x l.
+Proof. induction l as [|y t IH]; simpl; [reflexivity|]. rewrite IH. reflexivity. Qed.
+
+Lemma zsort_isort l : zsort l = isort Z.leb (fun z : Z => z) l.
+Proof. unfold zsort, isort. induction l as [|x t IH]; simpl; [reflexivity|]. rewrite IH. apply zinsert_ins. Qed.
+
+Lemma filter_eqb_repeat k l :
+  filter (fun x => x =? k) l = repeat k (length (filter (fun x => x =? k) l)).
+Proof.
+  induction l as [|x t IH]; simpl; [reflexivity|].
+  destruct (x =? k) eqn:E; [|exact IH]. apply Z.eqb_eq in E. subst. simpl. f_equal. exact IH.
+Qed.
+
+Lemma Permutation_filter_length {A} (f : A -> bool) a b :
+  Permutation a b -> length (filter f a) = length (filter f b).
+Proof.
+  intros H. induction H as [|x l l' _ IH|x y l|l l' l'' _ IH1 _ IH2]; simpl.
+  - reflexivity.
+  - destruct (f x); simpl; congruence.
+  - destruct (f x), (f y); reflexivity.
+  - congruence.
+Qed.
+
+Lemma zsort_perm_eq a b : Permutation a b -> zsort a = zsort b.
+Proof.
+  intros H. rewrite !zsort_isort.
+  assert (forall x y, (x <=? y) = true \/ (y <=? x) = true) as Htot by (intros; lia).
+  assert (forall x y z, (x <=? y) = true -> (y <=? z) = true -> (x <=? z) = true) as Htr by (intros; lia).
+  assert (forall x y, (x <=? y) = true -> (y <=? x) = true -> x = y) as Hanti by (intros; lia).
+  apply (isort_unique Z.leb (fun z : Z => z) Htot Htr Hanti).
+  - apply isort_sorted; assumption.
+  - intros k. rewrite (isort_stable Z.leb (fun z : Z => z) Htot). unfold has_key.
+    rewrite (filter_eqb_repeat k a), (filter_eqb_repeat k b).
+    rewrite (Permutation_filter_length _ _ _ H). reflexivity.
+Qed.
+
+Lemma zlist_eqb_refl a : zlist_eqb a a = true.
+Proof. induction a as [|x t IH]; simpl; [reflexivity|]. rewrite Z.eqb_refl. exact IH. Qed.
+
+Lemma perm_check_iff o m : perm_check o m = true <-> Permutation m o.
+Proof.
+  split; [apply perm_check_sound|]. intros H. unfold perm_check.
+  rewrite (zsort_perm_eq _ _ H). apply zlist_eqb_refl.
+Qed.
